@@ -85,7 +85,7 @@ def gen_value(rng):
     return ("quoted", s.encode())
 
 
-def render(rng, assigns):
+def render(rng, assigns, allow_hash=False):
     """Render a hierarchy with random layout choices of the dialect.
     Returns (doc bytes, written values, items) where items is the document as a list of dialect items
     (the constructors of c12_sline in coq/C12_Spec.v); the document is their plain concatenation."""
@@ -114,11 +114,15 @@ def render(rng, assigns):
             q = rng.choice(["'", '"'])
             body = v.replace("\n", "") if crlf else v   # a CR would become part of a multi-line value
             # '#' is cut from the first line before quotes are seen; the quote must not end a line of the value
-            first, sep, rest = body.partition("\n")
-            first = first.replace("#", "")
-            body = first + sep + rest
+            # F-C12-3: a '#' on the first line of a quoted value is cut as a comment by the code as found;
+            # the dialect of C12_roundtrip excludes it, the property does not: keep it in some documents
+            keep_hash = allow_hash and rng.random() < 0.3
+            if not keep_hash:
+                first, sep, rest = body.partition("\n")
+                first = first.replace("#", "")
+                body = first + sep + rest
             while True:
-                nb = re.sub(re.escape(q) + r"(?=[ \t\r]*(\n|$))", "", body)
+                nb = re.sub(re.escape(q) + r"(?=[ \t\r]*(\n|$|#))", "", body)
                 if nb == body:
                     break
                 body = nb
@@ -206,7 +210,7 @@ def gen_rendered(ctx, n):
                 doc.insert(rng.randrange(len(doc) + 1), (p, gen_value(rng)))
         ow = rng.randrange(2)
         predoc, prevals, _ = render(rng, pre)
-        d, docvals, items = render(rng, doc)
+        d, docvals, items = render(rng, doc, allow_hash=True)
         pa = [(p, v) for (p, _), v in zip(pre, prevals)]
         da = [(p, v) for (p, _), v in zip(doc, docvals)]
         kind = "rendered"
@@ -389,8 +393,20 @@ def sig_of(c, impl, spec):
             return "C12:range:accepts-malformed"
         return "C12:get:%s" % t[1]
     if t[0] == "ini":
+        if len(t) >= 8 and hash_in_quoted(t[7]):
+            return "C12:ini:hash-in-quoted-value"
         return "C12:ini:tree" if spec.startswith("ok") else "C12:ini:status"
     return "C12:" + t[0]
+
+
+def hash_in_quoted(items_field):
+    """Does the document (given as dialect items) contain a quoted value with '#' on its first line?"""
+    for it in items_field.split(","):
+        if it[:2] in ("Q:", "N:"):
+            f = it[2:].split("/")
+            if "23" in re.findall("..", f[5][1:]):
+                return True
+    return False
 
 
 def oracle(c, impl, spec):
@@ -439,7 +455,8 @@ def split_model(m):
 
 
 def model_matches(mm, impl):
-    """Model observation: 'asis' or 'asis ~ fixed' (parseRange before / after fixes/C12-1.patch)."""
+    """Model observation: one line, or 'as found ~ repaired' where the two variants of readINITree's comment
+    search (before / after fixes/C12-3.patch) differ."""
     if " ~ " in mm:
         a, b = mm.split(" ~ ")
         return "asis" if impl == a else ("fixed" if impl == b else None)
@@ -537,7 +554,7 @@ def run(ctx):
         "samples": [decode_case(c)[:300] for c in (cases[len(corpus):len(corpus) + 2] + cases[len(cases) // 2: len(cases) // 2 + 2] + cases[-2:])],
         "stream_sizes": {n: len(c) for n, c in streams}, "case_kinds": kinds, "impl_status_distribution": statuses,
         "impl_model_disagreements": ndis, "oracle_rejections": nviol, "oracle_rejections_by_signature": persig,
-        "parseRange_variant_matched_on_discriminating_cases": variants,
+        "comment_search_variant_matched_on_discriminating_cases": variants,
         "model_flags_undefined_rbegin_read_cases": ub_cases,
         "rendered_documents_vs_dialect_of_C12_roundtrip": dialect,
         "sanitizer_cases": len(sub), "comma_locale_cases": len(vidx), "os_locale_with_decimal_comma": "not installed (C, C.utf8, POSIX only); C++ global locale with custom numpunct used instead",
